@@ -99,14 +99,15 @@ def accept_pointer(tier):
                 pre=PRE_GHOST, replay={'kind': 'accept_pointer'})
 
 
-def rejected_shape_inst(name, params, expr, harness, tag, tier, root_name='operator='):
+def rejected_shape_inst(name, params, expr, harness, tag, tier, root_name='operator=', member=True, prop=None):
     """compile-time clause, one program shape: the snippet must be rejected by the compiler (may_not_compile: then it is no
     instance).  If a change makes it compile, the function it binds to is extracted and meets `ensures(0)`: a violation whose
     obligation names the shape.  (Only the shapes listed here are watched; the clause as a whole stays undecided.)"""
-    cl = [('objs', '__CPROVER_requires(__CPROVER_rw_ok($this, sizeof(*$this)))'),
-          (tag, '__CPROVER_ensures(0)'),
-          ('frame', '__CPROVER_assigns(__CPROVER_object_whole($this))')]
-    return Inst(name, params, expr, cl, harness, leaves=['dynamic_check'], prop=PROP, root_name=root_name, tier=tier, pre=PRE_GHOST, may_not_compile=True,
+    if member:
+        cl = [('objs', '__CPROVER_requires(__CPROVER_rw_ok($this, sizeof(*$this)))'), (tag, '__CPROVER_ensures(0)'), ('frame', '__CPROVER_assigns(__CPROVER_object_whole($this))')]
+    else:
+        cl = [(tag, '__CPROVER_ensures(0)'), ('frame', '__CPROVER_assigns()')]
+    return Inst(name, params, expr, cl, harness, leaves=['dynamic_check'], prop=prop or PROP, root_name=root_name, tier=tier, pre=PRE_GHOST, may_not_compile=True,
                 note='program shape that must not compile; present as an instance only on a tree where it does')
 
 
@@ -121,7 +122,24 @@ def rejected_shapes(tier):
     TV = cs('rlbox::tainted_volatile<int *, rlbox::vsbx>')
     out.append(rejected_shape_inst('c02_shape_store_of_a_raw_pointer', 'tainted_volatile<int*, vsbx>& tv, int* p', 'tv = p;',
                                    '  struct %s cell; uintptr_t in_p;\n  $ROOT(&cell, (int *)in_p);\n' % TV, 'a_raw_pointer_cannot_be_stored_into_sandbox_memory', tier))
+    # a registered callback stored into a function-pointer field of another type
+    TVF = cs('rlbox::tainted_volatile<void (*)(char *, unsigned long), rlbox::vsbx>')
+    CBI = cs('rlbox::sandbox_callback<int (*)(int), rlbox::vsbx>')
+    out.append(rejected_shape_inst('c02_shape_store_of_a_callback_into_a_field_of_another_function_type',
+                                   'tainted_volatile<void (*)(char*, unsigned long), vsbx>& tv, sandbox_callback<int (*)(int), vsbx>& cb', 'tv = cb;',
+                                   '  struct %s cell; struct %s cb;\n  $ROOT(&cell, &cb);\n' % (TVF, CBI), 'a_callback_is_stored_only_where_the_function_pointer_type_matches', tier))
+    out.append(cast_shape_inst(tier))
     return out
+
+
+def cast_shape_inst(tier, prop=None, prefix='c02'):
+    """sandbox_reinterpret_cast from an integer to a pointer would wrap any bit pattern as a tainted pointer"""
+    TU = cs('rlbox::tainted<unsigned long long, rlbox::vsbx>')
+    TP = cs('rlbox::tainted<long *, rlbox::vsbx>')
+    return rejected_shape_inst('%s_shape_reinterpret_cast_of_an_integer_to_a_pointer' % prefix, 'tainted<unsigned long long, vsbx>& v', 'sandbox_reinterpret_cast<long*>(v);',
+                               '  struct %s v;\n  struct %s r = $ROOT(&v);\n' % (TU, TP), 'an_integer_cannot_be_cast_to_a_tainted_pointer', tier,
+                               root_name='sandbox_reinterpret_cast', member=False, prop=prop)
+
 
 def units(tier):
     insts = [tainted_assign('int*', tier), tainted_assign('fnptr', tier), volatile_assign('int*', tier), volatile_assign('fnptr', tier), accept_pointer(tier)] + rejected_shapes(tier)
